@@ -135,6 +135,32 @@ def eval_property(prop, tier, seed, REPO):
     loadrun.heap_part(rep, root, ["run", "result", "validate", "program", "rerun"], {"once", "memo", "finished", "all-finished", "mono", "inv", "frame", "cover"})
     loadrun.load_part(rep, root, {"wf", "cover"}, which=("add_command", "from_source"))
     loadrun.add_records(rep, eval_lemmas(), None, how="lemma refuted")
+    # ---- the sources of a model: the CSV reader returns the file's column (contract of C17 on the real body), and only cells equal to MissingVal are missing
+    src_part = None
+    try:
+        from . import ioprops, iocases
+
+        precs, fns = ioprops.verify(repo, "csv")
+        rd = [loadrun._strip(r) for r in precs if "EEMSRead" in r.get("name", "")]
+        known = set(json.dumps(f, sort_keys=True, default=str) for f in rep.functions)
+        rep.functions += [f for f in fns if "EEMSRead" in json.dumps(f, default=str) and json.dumps(f, sort_keys=True, default=str) not in known]
+        loadrun.add_records(rep, rd, None)
+        t1 = time.time()
+        rcases = [c for c in iocases.csv_cases(tier, seed) if c["kind"] == "csv_read"]
+        routs = iocases.run_real(rcases, root)
+        rf = 0
+        for c, o in zip(rcases, routs):
+            bad = iocases.judge_csv(c, o)
+            if any(b[0] == "harness-error" for b in bad):
+                rep.errors.append("csv battery: %s" % (bad[0][1],))
+            elif bad:
+                rf += 1
+                rep.violations.append({"obligation": "mpilot/libraries/eems/csv/io.py/bounded:csv_read", "function": "mpilot/libraries/eems/csv/io.py", "how": "bounded-concrete",
+                                       "case": c, "real": o, "violated": [b[0] for b in bad], "violated_detail": bad[:4], "confirmed": True})
+        src_part = {"name": "csv-sources", "evaluations": len(rcases), "distinct_nontrivial": len(rcases), "failures": rf, "wall_s": round(time.time() - t1, 1),
+                    "rule": "the read cases of C17's table battery (double lattice incl. values next to MissingVal, every MissingVal / DataType choice)"}
+    except Exception as e:
+        rep.errors.append("csv reader: %s: %s" % (type(e).__name__, e))
     # ---- bounded: whole models on the real code against the chained spec functions
     t0 = time.time()
     ms = E.models(root, tier, seed)
@@ -170,7 +196,7 @@ def eval_property(prop, tier, seed, REPO):
     part = {"name": "whole-models", "evaluations": len(cases), "distinct_nontrivial": len(distinct), "failures": fails, "wall_s": round(time.time() - t0, 1),
             "models": len(ms), "commands_used": sorted(set(n["cls"] for m in ms for n in m["nodes"]))}
     prev = rep.bounded
-    parts = ([dict(prev, name="single-commands")] if prev else []) + [part]
+    parts = ([dict(prev, name="single-commands")] if prev else []) + [part] + ([src_part] if src_part else [])
     rep.bounded = {"label": "bounded (never counted as proved)", "parts": parts, "evaluations": sum(p.get("evaluations", 0) for p in parts),
                    "distinct_nontrivial": sum(p.get("distinct_nontrivial", 0) for p in parts), "failures": sum(p.get("failures", 0) for p in parts),
                    "rule": "random typed DAG models (3 CSV columns read as int/float with missing cells, then 6 (thorough: 8) commands drawn from the 31 data commands with "
@@ -179,7 +205,7 @@ def eval_property(prop, tier, seed, REPO):
                            "shuffled and multi-line, with every Metadata argument removed, and with an extra consumer of every result; every node's real result "
                            "(kind, element type, missing cells, values) is compared with the reference and across the variants; plus the single-command battery"}
     rep.trusted = list(rep.trusted) + [
-        "EEMSRead (the sources of a model) is outside the modelled subset: its result being a masked array of the file's column is C17's bounded stand-in",
+        "EEMSRead (the sources of a model): the CSV reader's body is under C17's contract (included here); the csv module / open() and the NetCDF reader are assumed (C17 / C18)",
         "the composition argument: Program.run returns => every command finished, executed exactly once, results never change afterwards (C01, proved here again); "
         "each execute returns its spec function of the *views* of the results it references (proved per command); finishing timestamps rank the reference graph (C14 lemma RANK); "
         "lemma EVAL-STEP then gives, by induction on the rank, that any two complete runs agree on every view, whatever the order of the commands",
